@@ -399,10 +399,15 @@ func TestVerif_C31Unit(t *testing.T) {
 	r := verifkit.Start(t, "C31", "unit")
 	r.Rule("one case = one real peer.Reconnector (1-3 addresses, PRNG delays 8-110 ms, multiplier, jitter) driven by a PRNG walk of " +
 		"fail / fail-with-Schedule-inside-callback / succeed / hold-in-flight / Pause (during an attempt or right after arming) / quiet / Resume(+ResetAll)+Schedule / " +
-		"Cancel / Reset (also while an attempt is in flight) / external Schedule; non-trivial = >=2 retry delays judged against the lower bound and the walk contains a pause or a success; distinct by config+walk")
+		"Cancel / Reset (also while an attempt is in flight) / external Schedule; phase longrun = 90-130 consecutive plain failures with 1-15 ms delays (initial*mult^k passes 2^63 ns inside the run); non-trivial = >=2 retry delays judged against the lower bound and the walk contains a pause or a success; distinct by config+walk")
 	c31InstallFireHook()
 	n := r.N(220, 4000)
 	r.ParCases("walk", n, 16, func(ci int, rng *verifkit.Rand) { c31UnitCase(r, "walk", ci, rng) })
+	// long uninterrupted failure runs: far past the point where initial*mult^k leaves the range of
+	// time.Duration, every retry still has to wait for the capped delay
+	r.ParCases("longrun", r.N(24, 400), 12, func(ci int, rng *verifkit.Rand) { c31LongRunCase(r, "longrun", ci, rng) })
+	r.Require("long_run_retries_judged", 1500)
+	r.Require("long_run_retries_judged_beyond_2^63ns", 300)
 	r.Require("attempt_starts", 500)
 	r.Require("lower_bounds_judged", 400)
 	r.Require("cases_with_pause_during_attempt", 30)
@@ -744,6 +749,67 @@ func c31UnitCase(r *verifkit.R, phase string, ci int, rng *verifkit.Rand) {
 	u.log("drain", "", "")
 	u.wait(u.upper(60) + 15*time.Millisecond)
 	r.Add("drain_periods", 1)
+}
+
+// c31LongRunCase: one address, nothing but consecutive failures (no success, Cancel, Reset,
+// pause), 90-130 of them, with millisecond delays so that initial*multiplier^k exceeds 2^63 ns
+// well inside the run. Every retry is judged against the same lower bound as everywhere else:
+// (1-jitter)*min(initial*mult^k, max) after the failure that armed it.
+func c31LongRunCase(r *verifkit.R, phase string, ci int, rng *verifkit.Rand) {
+	initial := time.Duration(rng.Range(1000, 5000)) * time.Microsecond
+	cfg := peer.ReconnectConfig{
+		InitialDelay: initial,
+		MaxDelay:     initial * time.Duration(verifkit.Pick(rng, []int{1, 2, 3})),
+		Multiplier:   verifkit.Pick(rng, []float64{1.5, 2, 2, 3}),
+		Jitter:       verifkit.Pick(rng, []float64{0, 0.1, 0.2}),
+		MaxAttempts:  0,
+	}
+	u := &c31Unit{c31Model: newC31Model(r, phase, ci, cfg, []string{"peer0"})}
+	u.rec = peer.NewReconnector(cfg, u.callback)
+	u.track = c31NewTrack(u.rec)
+	a := u.addrs["peer0"]
+	runLen := rng.Range(90, 130)
+	beyond := 0
+	defer func() {
+		u.release()
+		u.rec.Stop()
+		c31Tracks.Delete(u.rec)
+		fp := fmt.Sprintf("longrun|%v|%v|%v|%v|%d", cfg.InitialDelay, cfg.MaxDelay, cfg.Multiplier, cfg.Jitter, runLen)
+		r.Eval(fp, u.judgedLower >= 50 && beyond > 0)
+		r.Add("long_run_retries_judged", u.judgedLower)
+		r.Add("long_run_retries_judged_beyond_2^63ns", beyond)
+		if r.NeedSample() && beyond > 0 {
+			r.Sample(map[string]any{"kind": "longrun", "config": fmt.Sprintf("initial=%v max=%v mult=%v jitter=%v", cfg.InitialDelay, cfg.MaxDelay, cfg.Multiplier, cfg.Jitter),
+				"consecutive_failures": u.judgedLower, "retries_beyond_2^63ns": beyond, "min_slack_over_lower_bound_ms": u.minSlackMs})
+		}
+	}()
+	t := time.Now()
+	u.rec.Schedule(a.name)
+	u.log("Schedule", a.name, "initial")
+	u.arm(a, t, false)
+	for i := 0; i < runLen && !u.broken; i++ {
+		if !u.await(c31Watchdog) {
+			r.Inconclusive("an armed retry never started within the watchdog (liveness is not judged)")
+			return
+		}
+		if u.broken || a.inflight == nil {
+			return
+		}
+		// unbounded product initial*mult^k beyond the range of time.Duration?
+		if float64(cfg.InitialDelay)*math.Pow(cfg.Multiplier, float64(a.k)) > math.MaxInt64 {
+			beyond++
+		}
+		// keep the witness short: only the last few steps matter
+		if len(u.steps) > 12 {
+			u.steps = append(u.steps[:2], u.steps[len(u.steps)-8:]...)
+		}
+		tf := time.Now()
+		ev := a.inflight
+		a.inflight = nil
+		u.log("fail", a.name, fmt.Sprintf("failure #%d", a.k))
+		u.arm(a, tf, true)
+		ev.reply <- c31Reply{err: errC31}
+	}
 }
 
 // c31Poll waits for cond (synchronisation only; the watchdog result is never a verdict).
